@@ -196,6 +196,45 @@ partial def showJOut : JOut → String
   | .obj kvs => "(jo" ++ String.join (kvs.map (fun kv => s!" ({hex kv.1} {showJOut kv.2})")) ++ ")"
   | .raw j => showJson j
 
+partial def parseSerde : Sexp → Option SerdeVal
+  | .atom "none" => some .none
+  | .atom "unit" => some .unit
+  | .list [.atom "bool", .atom b] => some (.bool (b == "1"))
+  | .list [.atom "i8", n] => (atomInt? n).map .i8
+  | .list [.atom "i16", n] => (atomInt? n).map .i16
+  | .list [.atom "i32", n] => (atomInt? n).map .i32
+  | .list [.atom "i64", n] => (atomInt? n).map .i64
+  | .list [.atom "u8", n] => (atomInt? n).map .u8
+  | .list [.atom "u16", n] => (atomInt? n).map .u16
+  | .list [.atom "u32", n] => (atomInt? n).map .u32
+  | .list [.atom "f32", n] => (atomNat? n).map (fun b => .f32 (UInt32.ofNat b))
+  | .list [.atom "f64", n] => (atomNat? n).map (fun b => .f64 (UInt64.ofNat b))
+  | .list [.atom "char", b] => (atomBytes? b).map .char
+  | .list [.atom "str", b] => (atomBytes? b).map .str
+  | .list [.atom "bytes", b] => (atomBytes? b).map .bytes
+  | .list [.atom "some", v] => (parseSerde v).map .some
+  | .list [.atom "ustruct", n] => (atomBytes? n).map .unitStruct
+  | .list [.atom "uvar", n, i, v] => do pure (.unitVariant (← atomBytes? n) (← atomNat? i) (← atomBytes? v))
+  | .list [.atom "nstruct", n, v] => do pure (.newtypeStruct (← atomBytes? n) (← parseSerde v))
+  | .list (.atom "seq" :: l :: items) => do
+    let len : Option Nat := match l with | .atom "-" => none | x => atomNat? x
+    pure (.seq len (← items.mapM parseSerde))
+  | .list (.atom "tuple" :: items) => (items.mapM parseSerde).map .tuple
+  | .list (.atom "tstruct" :: n :: items) => do pure (.tupleStruct (← atomBytes? n) (← items.mapM parseSerde))
+  | .list (.atom "map" :: l :: entries) => do
+    let len : Option Nat := match l with | .atom "-" => none | x => atomNat? x
+    let es ← entries.mapM (fun (e : Sexp) => match e with
+      | .list [k, v] => (do pure ((← parseSerde k), (← parseSerde v)) : Option (SerdeVal × SerdeVal))
+      | _ => none)
+    pure (.map len es)
+  | .list (.atom "struct" :: n :: fields) => do
+    let fs ← fields.mapM (fun (e : Sexp) => match e with
+      | .list [k, .atom "skip"] => (do pure ((← atomBytes? k), none) : Option (Bytes × Option SerdeVal))
+      | .list [k, v] => (do pure ((← atomBytes? k), some (← parseSerde v)) : Option (Bytes × Option SerdeVal))
+      | _ => none)
+    pure (.struct (← atomBytes? n) fs)
+  | _ => none
+
 /-- canonical text of a value: the same grammar the harness prints; map entries sorted by key. -/
 partial def showValue : Value → String
   | .null => "n"
